@@ -189,7 +189,14 @@ PlainEv ==
         /\ (E.status = "nil") => TokensKept({E.c}, E.toks)
   /\ nops' = nops + 1 /\ UNCHANGED <<cells, files, ntok, obs, bound, hist, clean, lastfrag>>
 
-TNext == FilesEv \/ BuildEv \/ FileEv \/ RenderEv \/ FragEv \/ PlainEv
+\* a behaviour during which the library killed the process (stack overflow, concurrent map access: nothing Go can recover
+\* from).  The harness executes behaviours in child processes and records such a behaviour as one event.
+CrashEv ==
+  /\ Consume("Crash") /\ tid' = E.trace
+  /\ Report("C02", "the library killed the process: " \o E.msg)
+  /\ UNCHANGED <<vars, clean, lastfrag, lastplain>>
+
+TNext == CrashEv \/ FilesEv \/ BuildEv \/ FileEv \/ RenderEv \/ FragEv \/ PlainEv
 TSpec == TInit /\ [][TNext]_tvars
 \* line 1 (the universe) is read by TInit
 Accepted == TLCGet("stats").diameter = Len(Trace)
